@@ -169,10 +169,23 @@ func (s *SCEVGenericExpr) IsLoopInvariant(loop *Loop) bool {
 	return s.X.IsLoopInvariant(loop) && s.Y.IsLoopInvariant(loop)
 }
 func (s *SCEVGenericExpr) String() string {
-	return fmt.Sprintf("(%s %s %s)", s.X.String(), s.Op.String(), s.Y.String())
+	return s.render(s.X.String(), s.Y.String())
 }
 func (s *SCEVGenericExpr) StringWithRenamer(r Renamer) string {
-	return fmt.Sprintf("(%s %s %s)", s.X.StringWithRenamer(r), s.Op.String(), s.Y.StringWithRenamer(r))
+	return s.render(s.X.StringWithRenamer(r), s.Y.StringWithRenamer(r))
+}
+
+// render prints the expression with the operands of a commutative integer operator in a
+// canonical order, like the canonicaliser does for BinOp instructions: a+b and b+a must
+// not yield different trip counts or add-recurrences in the canonical IR.
+func (s *SCEVGenericExpr) render(x, y string) string {
+	switch s.Op {
+	case token.ADD, token.MUL, token.AND, token.OR, token.XOR:
+		if y < x {
+			x, y = y, x
+		}
+	}
+	return fmt.Sprintf("(%s %s %s)", x, s.Op.String(), y)
 }
 func (s *SCEVGenericExpr) Name() string                  { return "scev_expr" }
 func (s *SCEVGenericExpr) Type() types.Type              { return types.Typ[types.Int] }
